@@ -5,11 +5,13 @@
 (* elements.  The sets are built production by production (derivation, not   *)
 (* filtering); Literals_MC checks derivation = recogniser exhaustively.      *)
 (* One TLC state per literal; the invariant Emit prints the case as JSON:    *)
-(*   [lit |-> atoms, kind |-> production, ctx |-> contexts where WF holds]   *)
+(*   [lit |-> atoms, kind |-> production, ctx |-> contexts where WF holds,   *)
+(*    grp |-> "boundary" | "derived"]                                         *)
 EXTENDS Literals, Json
 
 CONSTANTS Sigma,      \* alphabet of the number literals
           L,          \* maximum length of a number literal
+          LH,         \* maximum length of a hexadecimal floating-point literal (they start at 5 characters)
           StrMode     \* "quick" | "full": how many string / raw combinations
 
 VARIABLE cur
@@ -26,10 +28,11 @@ RHex == Sigma \cap HexD
 
 (* digit { [ "_" ] digit }  of exactly n characters *)
 DGn(D, n) == IF n <= 0 THEN {} ELSE {s \in [1..n -> D \cup (Sigma \cap {"_"})] : Digits(s, D)}
-DecN == [n \in 0..L |-> DGn(RDec, n)]
+LM == IF LH > L THEN LH ELSE L
+DecN == [n \in 0..LM |-> DGn(RDec, n)]
 OctN == [n \in 0..L |-> DGn(ROct, n)]
 BinN == [n \in 0..L |-> DGn(RBin, n)]
-HexN == [n \in 0..L |-> DGn(RHex, n)]
+HexN == [n \in 0..LM |-> DGn(RHex, n)]
 UpTo(F, n)  == UNION {F[k] : k \in 1..n}
 (* [ "_" ] digits, at most n characters *)
 UUpTo(F, n) == UpTo(F, n) \cup (IF "_" \in Sigma /\ n >= 2 THEN Cat({<<"_">>}, UpTo(F, n - 1)) ELSE {})
@@ -51,9 +54,11 @@ OptExp(M, n) == IF n = 0 THEN {<<>>} ELSE ExpSet(M, n)      \* exactly n charact
 
 Dot == IF "." \in Sigma THEN {<<".">>} ELSE {}
 
-(* length splits <<nl, nr, nx>> with  extra + nl + nr + nx <= L *)
-Splits(extra, minl, minr, minx) ==
-    {t \in (minl..L) \X (minr..L) \X ({0} \cup (2..L)) : t[3] >= minx /\ extra + t[1] + t[2] + t[3] <= L}
+(* length splits <<nl, nr, nx>> with  extra + nl + nr + nx <= max *)
+SplitsM(extra, minl, minr, minx, max) ==
+    {t \in (minl..max) \X (minr..max) \X ({0} \cup (2..max)) : t[3] >= minx /\ extra + t[1] + t[2] + t[3] <= max}
+Splits(extra, minl, minr, minx) == SplitsM(extra, minl, minr, minx, L)
+SplitsH(extra, minl, minr, minx) == SplitsM(extra, minl, minr, minx, LH)
 
 (* decimal_float_lit, by the lengths of its parts *)
 GenDecFloat ==
@@ -68,15 +73,16 @@ UHexN(n) == HexN[n] \cup (IF "_" \in Sigma /\ n >= 2 THEN Cat({<<"_">>}, HexN[n 
 GenHexFloat ==
     Cat(Pfx({"x", "X"}),
         UNION {Cat(Cat(Cat(UHexN(t[1]), Dot), IF t[2] = 0 THEN {<<>>} ELSE HexN[t[2]]), ExpSet({"p", "P"}, t[3])) :
-                  t \in Splits(3, 1, 0, 2)}
-        \cup UNION {Cat(UHexN(t[1]), ExpSet({"p", "P"}, t[3])) : t \in {u \in Splits(2, 1, 0, 2) : u[2] = 0}}
-        \cup UNION {Cat(Cat(Dot, HexN[t[2]]), ExpSet({"p", "P"}, t[3])) : t \in {u \in Splits(3, 0, 1, 2) : u[1] = 0}})
+                  t \in SplitsH(3, 1, 0, 2)}
+        \cup UNION {Cat(UHexN(t[1]), ExpSet({"p", "P"}, t[3])) : t \in {u \in SplitsH(2, 1, 0, 2) : u[2] = 0}}
+        \cup UNION {Cat(Cat(Dot, HexN[t[2]]), ExpSet({"p", "P"}, t[3])) : t \in {u \in SplitsH(3, 0, 1, 2) : u[1] = 0}})
 
 GenFloat == GenDecFloat \cup GenHexFloat
 
 (* imaginary_lit = (decimal_digits | int_lit | float_lit) "i", at most L characters *)
 GenImag == IF "i" \notin Sigma THEN {}
-           ELSE {s \o <<"i">> : s \in {t \in UpTo(DecN, L - 1) \cup GenInt \cup GenFloat : Len(t) <= L - 1}}
+           ELSE {s \o <<"i">> : s \in {t \in UpTo(DecN, L - 1) \cup GenInt \cup GenFloat :
+                                            Len(t) <= (IF t \in GenHexFloat THEN LH ELSE L) - 1}}
 
 GenNumbers == GenInt \cup GenFloat \cup GenImag
 
@@ -209,14 +215,16 @@ GenStrings ==
 RawElems == {<<"a">>, <<" ">>, <<"\\">>, <<"\"">>, <<"'">>, <<"$">>, <<"%">>, <<"{">>, <<"/">>, <<";">>,
              <<"<TAB>">>, <<"<LF>">>, <<"<CR>">>, <<"<U+E9>">>, <<"<U+4E16>">>, <<"<U+1F600>">>, <<"\\", "n">>, <<"/", "/">>}
 RawCore == {<<"a">>, <<" ">>, <<"<LF>">>, <<"<CR>">>, <<"<TAB>">>, <<"\\">>}
+RawMore == RawCore \cup {<<"\"">>, <<"<U+E9>">>, <<"/", "/">>}
 GenRaws ==
     Wrap("`", {<<>>} \cup RawElems \cup Cat(RawElems, RawElems)
-              \cup (IF StrMode = "full" THEN Cat(Cat(RawElems, RawElems), RawElems) ELSE Cat(Cat(RawCore, RawCore), RawCore)))
+              \cup (IF StrMode = "full" THEN Cat(Cat(RawMore, RawMore), RawMore) ELSE Cat(Cat(RawCore, RawCore), RawCore)))
 
 -----------------------------------------------------------------------------
 AllLits == GenNumbers \cup Boundary \cup GenRunes \cup GenStrings \cup GenRaws
 
-Case(s) == [lit |-> s, kind |-> Kind(s), ctx |-> {x \in Contexts : WF(s, x)}]
+Case(s) == [lit |-> s, kind |-> Kind(s), ctx |-> {x \in Contexts : WF(s, x)},
+            grp |-> IF s \in Boundary THEN "boundary" ELSE "derived"]
 
 (* the empty spelling is the start state; every literal is one step away, so that all the *)
 (* evaluation happens in TLC worker threads (run with a large -Xss: BigNat recursion is deep) *)
